@@ -185,7 +185,11 @@ class Ctx:
         for r in results:
             wall = max(wall, r.wall)
             if r.error or r.violated or r.rc != 0:
-                raise Machinery("VAL %s failed:\n%s" % (module, r.out[-4000:]))
+                with open("/var/tmp/verif_last_tlc.out", "w") as fh:
+                    fh.write(r.out)
+                k = r.out.find("Error:")
+                raise Machinery("VAL %s failed (full output in /var/tmp/verif_last_tlc.out):\n%s" % (
+                    module, r.out[max(0, k):k + 2500] if k >= 0 else r.out[-3000:]))
             self.states += r.distinct
             self.transitions += r.generated
             for v in r.verdicts("V"):
